@@ -220,10 +220,10 @@ func vkey(v0 int, ops []vop, waiters []vwaiter) string {
 
 func TestCounterWaits(t *testing.T) {
 	const check = "counter_waits"
-	stats.Rule(check, "rapid draws an initial value 0..4, 1-10 mutations (Set/Update/Increase/Decrease keeping the value in 0..5; each optionally followed by a sync point) and 1-4 waiters (WaitIsZero, WaitIsBelow(1..5), WaitIsAbove(0..4)) launched at drawn positions; the controller is the only mutator; only-if and if oracles as described in waits_test.go; closing mutations satisfy every outstanding waiter; non-trivial = a waiter was launched while its condition was false and returned later; distinct by (initial, mutations, waiters)")
+	stats.Rule(check, "rapid draws an initial value -2..4, 1-10 mutations (Set/Update/Increase/Decrease keeping the value in -2..5 - the counter may go negative, as the package's own TestCounter_WaitIsBelowZero does; each optionally followed by a sync point) and 1-4 waiters (WaitIsZero, WaitIsBelow(1..5), WaitIsAbove(0..4)) launched at drawn positions; the controller is the only mutator; only-if and if oracles as described in waits_test.go; closing mutations satisfy every outstanding waiter; non-trivial = a waiter was launched while its condition was false and returned later; distinct by (initial, mutations, waiters)")
 	rapid.Check(t, func(rt *rapid.T) {
 		c := syncutils.NewCounter()
-		v0 := rapid.IntRange(0, 4).Draw(rt, "v0")
+		v0 := rapid.IntRange(-2, 4).Draw(rt, "v0")
 		c.Set(v0)
 		v := v0
 		var ops []vop
@@ -231,11 +231,11 @@ func TestCounterWaits(t *testing.T) {
 			sync := rapid.IntRange(0, 2).Draw(rt, "sync") == 0
 			switch rapid.IntRange(0, 3).Draw(rt, "op") {
 			case 0:
-				nv := rapid.IntRange(0, 5).Draw(rt, "set")
+				nv := rapid.IntRange(-2, 5).Draw(rt, "set")
 				v = nv
 				ops = append(ops, vop{fmt.Sprintf("Set(%d)", nv), func() { c.Set(nv) }, v, sync})
 			case 1:
-				d := rapid.IntRange(max(-2, -v), min(2, 5-v)).Draw(rt, "delta")
+				d := rapid.IntRange(max(-2, -2-v), min(2, 5-v)).Draw(rt, "delta")
 				v += d
 				ops = append(ops, vop{fmt.Sprintf("Update(%d)", d), func() { c.Update(d) }, v, sync})
 			case 2:
@@ -247,7 +247,7 @@ func TestCounterWaits(t *testing.T) {
 					ops = append(ops, vop{"Decrease()", func() { c.Decrease() }, v, sync})
 				}
 			default:
-				if v > 0 {
+				if v > -2 {
 					v--
 					ops = append(ops, vop{"Decrease()", func() { c.Decrease() }, v, sync})
 				} else {
